@@ -46,7 +46,14 @@ def check_one(t, src, scheme):
                         f"raises {type(ex).__name__} on a query that evaluates", src, None,
                         repr(ex), replay)
         return
-    changed = ast.dump(r) != ast.dump(q)
+    try:
+        changed = ast.dump(r) != ast.dump(q)
+    except RecursionError:
+        t.case("C02:" + src, True, sample=src)
+        t.violation("simplify_chained_calls.visit:result-is-a-finite-tree",
+                    "the simplified query cannot be dumped (cyclic or unboundedly deep AST)", src,
+                    None, "RecursionError in ast.dump(result)", replay)
+        return
     nested = sum(1 for x in ast.walk(q) if isinstance(x, ast.Lambda)) >= 2
     t.case("C02:" + src, bool(ok_idx) and changed and nested, sample=src)
     t.contract("sem(visit(q)) == sem(q) whenever sem(q) is defined")
